@@ -64,11 +64,11 @@ def shards(tier: str, seed: int) -> list[dict[str, Any]]:
     specs: list[dict[str, Any]] = []
     n_own = 11 if q else 14
     for i in range(n_own):
-        specs.append({"kind": "own", "i": i, "n": n_own, "count": 90 if q else 2600})
+        specs.append({"kind": "own", "i": i, "n": n_own, "count": 90 if q else 2000})
     n_sh = 3 if q else 4
     for i in range(n_sh):
-        specs.append({"kind": "shared", "i": i, "n": n_sh, "count": 60 if q else 2000})
-    specs.append({"kind": "dyn", "i": 0, "n": 1, "count": 50 if q else 1500})
+        specs.append({"kind": "shared", "i": i, "n": n_sh, "count": 60 if q else 1500})
+    specs.append({"kind": "dyn", "i": 0, "n": 1, "count": 50 if q else 1200})
     specs.append({"kind": "hand", "i": 0, "n": 1})
     return specs
 
